@@ -20,7 +20,7 @@
     NOT covered by a theorem (correspondence + oracle only, see TESTED_NOT_PROVED in harness/props/C04.py): the
     "all centre hydrogens explicit" branch (default mode: _strip_explicit_h, hydrogen expansion, _explicit_h). *)
 From Coq Require Import List NArith ZArith Bool.
-From SK Require Import lib.Tok lib.LGraph model.C03_Model model.C04_Model proof.C04_Proof proof.C04_Examples.
+From SK Require Import lib.Tok lib.LGraph model.C03_Model model.C04_Model proof.C04_Check proof.C04_Proof proof.C04_Examples.
 Import ListNotations.
 Local Open Scope Z_scope.
 
@@ -72,6 +72,19 @@ Theorem C04_centre_exact : forall (invert : bool) (G H : hostg),
     regen_exact T (if invert then H else G) (if invert then G else H) = false.
 Proof. exact centre_exact_all. Qed.
 Print Assumptions C04_centre_exact.
+
+(** the gluing half for ANY rule and BOTH hydrogen modes: whenever the rule the reactor prepared describes the pair
+    (A, B) = (substrate, other side with implicit hydrogens) -- the boolean [describesb], evaluated by [run_c04] on
+    every correspondence case and recomputed independently by the harness -- the identity is a valid match and the
+    glued ITS decomposes to (A, B).  In implicit mode the premise is PROVED from the precondition
+    (C04_identity_glue); in the default mode (rule prepared by _strip_explicit_h) it is validated per case, and the
+    result is the ITS BEFORE _explicit_h re-materialises the migrating hydrogens. *)
+Theorem C04_identity_glue_any_rule : forall (A B : hostg) (rc : its),
+  pair_wfb A B = true -> describesb A B rc = true ->
+  match_rcb A rc (id_map (node_ids rc)) = true /\
+  exists T : its, glue A rc (id_map (node_ids rc)) = Some T /\ regen_exact T A B = true.
+Proof. exact glue_any_rule. Qed.
+Print Assumptions C04_identity_glue_any_rule.
 
 (** PARTIAL.  Full clause wanted: the reaction is among the reactor's results.  Proved: for ANY list of mappings the
     pruning keeps, if it contains the identity then its_list contains an ITS that decomposes to the reaction.  Missing
